@@ -95,6 +95,15 @@ func checkRegistry(c regCase) error {
 			cur = -1
 		case 3:
 			if cur < 0 {
+				// nothing is registered (any more): the type is an unknown type again
+				w := []byte{1, 'p', 0, byte(regType >> 8), byte(regType & 0xff), 0, 1, 0, 0, 0, 7, 0, 2, 0xab, 0xcd}
+				u, _, err := dns.UnpackRR(w, 0)
+				if err != nil {
+					return pbt.Errf("step %d of %v: UnpackRR of the unregistered type fails: %v", step, c.Ops, err)
+				}
+				if g, ok := u.(*dns.RFC3597); !ok || g.Rdata != "abcd" {
+					return pbt.Errf("step %d of %v: with no codec registered the record decodes as %T (%s), want the RFC 3597 form", step, c.Ops, u, u)
+				}
 				continue
 			}
 			var data dns.PrivateRdata
